@@ -65,7 +65,7 @@ def _run(ctx: Ctx) -> Result:
     res = Result(rule=RULE)
     rng = ctx.sub_rng('c05')
     B = Bench(ctx, res); T = B.T
-    flagsets = ['00', '01', '02', '03', '7f', '80']
+    flagsets = ['00', '01', '02', '03', '7f', '80', '04', '08', '10', '20', '40', '5a', 'ef', 'df', '30']      # incl. every single bit
     keys = V.Keys(ctx.sub_rng('keys'))
     n_diff_excluded = 0; k6 = []; k7 = []
     known = ctx.known if hasattr(ctx, 'known') else set()
@@ -130,6 +130,7 @@ def _run(ctx: Ctx) -> Result:
         seed = V.rbytes(rng, 32); pk = bytes(SigningKey(seed).verify_key)
         sf = {f'sigfield{i}': V.rbytes(rng, rng.choice([1, 6, 33])) for i in range(1, 9) if rng.random() < .6}
         if not sf: sf['sigfield2'] = b'xyz'
+        if it % 3 == 0: sf = {f'sigfield{i}': V.rbytes(rng, rng.choice([1, 6])) for i in range(1, 9)}        # all eight present: every flag bit matters
         lf = rng.choice(flagsets)
         wf = rng.choice([f for f in flagsets if int(f, 16) & ~int(lf, 16) == 0])
         bad_flags = [f for f in flagsets if int(f, 16) & ~int(lf, 16)]
